@@ -196,8 +196,11 @@ class RelayMode(vlib.Mode):
                 sc = rng.choice([["read", "write"], ["read", "write"], ["read"], ["write"], ["write", "x"], ["read", "relay:stats"],
                                  ["read", "read"], ["write", "write"], ["read", "read", "read"], ["thread", "write"], ["read", "rewrite"]])
                 case.append(f"session {tok(now, topic=sval(t), bid=sval(b), scopes=lval(sc))} {hx(t)}")
-                case.append(f"ws {hx('/session/' + t)} c{len(st['codes'])}")
+                meta = (" " + hx(rng.choice(["y" * 300, ("Mozilla/5.0 " + "(KHTML, like Gecko) " * 30).strip(), "z" * 257])) + " " + hx(", ".join(f"10.1.{i}.{i}" for i in range(40)))) if rng.random() < 0.3 else ""
+                case.append(f"ws {hx('/session/' + t)} c{len(st['codes'])}{meta}")
                 st["codes"].append(t); st["joined"] = st.get("joined", 0) + 1
+            if rng.random() < 0.5:
+                case.append(f"status {stats()}")       # what /status says about the connections just made (metadata verbatim)
         if rng.random() < 0.12:
             # cancel, re-admit, reconnect, cancel AGAIN: the second cancellation of the same booking must close the new connections too
             t, b = rng.choice(TOPICS[:2]), rng.choice(BIDS)
